@@ -14,7 +14,7 @@ from vf import S, Lst, sx_opt, unS
 
 LANGS = ['typescript', 'kotlin', 'swift', 'scala', 'go', 'python']
 PREFIXES = ['', 'OP', 'X_']
-ACRONYMS = [[], [], ['id', 'api'], ['id', 'url', 'http']]
+ACRONYMS = [[], [], ['id', 'api'], ['id', 'url', 'http'], ['xy', 'yZw', 'wQr']]
 EXT = {'typescript': 'ts', 'kotlin': 'kt', 'swift': 'swift', 'scala': 'scala', 'go': 'go', 'python': 'py'}
 
 
@@ -27,7 +27,7 @@ def cfg_for(lang, k):
     if lang == 'scala':
         return {'package': 'com.example'}
     if lang == 'go':
-        return {'package': 'example', 'uppercase_acronyms': ACRONYMS[k % 4]}
+        return {'package': 'example', 'uppercase_acronyms': ACRONYMS[k % 5]}
     return {}
 
 
@@ -153,6 +153,11 @@ pub struct H { pub u: U }
 pub struct UserId { pub a: u32 }
 #[typeshare]
 pub type Ids = Vec<UserId>;
+'''),
+    'C09-go-acronym-inner': ('go', {'package': 'p', 'uppercase_acronyms': ['xy', 'yZw', 'wQr']}, '''
+#[typeshare]
+#[serde(tag = "type", content = "content")]
+pub enum E { XyZwQr { a: u32 }, Other(u32) }
 '''),
     'C09-const-type': ('typescript', {}, '''
 #[typeshare]
@@ -287,8 +292,9 @@ def run(chk):
     chk.rule = ('programs of 2-8 mutually referencing items (struct, generic struct, unit enum, tagged enum with unit/tuple/struct variants, generic '
                 'tagged enum, alias, generic alias, JvmInline alias, const typed by an alias); references direct, through Vec/Option/HashMap/array/slice/Box, '
                 'as generic arguments (nested to depth 2), forward, backward and recursive; a third of the programs without serde(rename), a third with '
-                'every subset member renamed at random, small programs with ALL subsets enumerated; prefixes "", "OP", "X_" (Kotlin, Swift), Go acronym '
-                'lists [], [id, api], [id, url, http]; 6 languages. non-trivial = distinct (program, language, configuration) inside dom_C09 with '
+                'every subset member renamed at random, small programs with ALL subsets enumerated; prefixes "", "OP", "X_" (Kotlin, Swift); in 3/7 of '
+                'the programs most item names of every kind begin with a prefix setting or a proper prefix of one (OPEvent, OEvent, X_Node, XNode), half of '
+                'those generated under that very prefix; Go acronym lists [], [id, api], [id, url, http]; 6 languages. non-trivial = distinct (program, language, configuration) inside dom_C09 with '
                 'known_C09 = None and at least one reference to a generated type')
     chk.assumptions = ['syn is not modelled: the model receives the AST produced by harness/libdrive/src/ast.rs from the same text',
                        'what a name in a type position of the target language MEANS is fixed by Spec/C09Spec.v (c09_observe, builtin tables) and '
@@ -315,7 +321,7 @@ def run(chk):
     progs_ = []
     for k in range(nprog):
         mode = [None, 'none', None, 'all', 'none', None][k % 6]
-        progs_.append(g.program(rename_mode=mode, with_const=(k % 5 == 0)))
+        progs_.append(g.program(rename_mode=mode, with_const=(k % 5 == 0), prefix_names=(k % 7 in (1, 4, 6))))
     # all subsets of small programs
     nsmall = 6 if chk.tier == 'quick' else 60
     for k in range(nsmall):
@@ -329,7 +335,14 @@ def run(chk):
     for k, p in enumerate(progs_):
         src = progs.source(p)
         for j, lang in enumerate(LANGS):
-            cases.append((lang, cfg_for(lang, k + j), src))
+            cfg = cfg_for(lang, k + j)
+            if lang in ('kotlin', 'swift') and getattr(p, 'c09_prefix', None):
+                chk.count('prefix_named_programs_' + lang)
+                if (k + j) % 2 == 0:        # half of them under the very prefix the names begin with
+                    cfg = dict(cfg, prefix=p.c09_prefix)
+                if cfg['prefix'] and any(it.ident.startswith(cfg['prefix']) for it in p.items):
+                    chk.count('name_begins_with_configured_prefix_' + lang)
+            cases.append((lang, cfg, src))
         for it in p.items:
             chk.count('item_' + it.c09_kind + ('_renamed' if it.rename else ''))
     res = run_cases(cases)
